@@ -312,6 +312,10 @@ def last_layer(facts, recv, depth=0):
                     ps = enum_paths(ab)
                 except PathLimit:
                     return None
+                rets_ = [p_ for p_ in ps if p_.end == "ret"]
+                if rets_ and all(any(x[0] == "call" and x[1].endswith("<impl [T]>::last") and any(y[0] == "field" and y[2] == "layers" for y in walk(x[2][0]))
+                                     for x in walk(p_.ret)) for p_ in rets_):
+                    return "%s() = self.layers.last()" % s[1].rsplit("::", 1)[-1]
                 if len(ps) == 1 and ps[0].end == "ret":
                     E = Evaluator(facts)
                     # evaluate the index expression with a representative length
